@@ -4,6 +4,7 @@ mod c04;
 mod c05;
 mod c06;
 mod c08b;
+mod c17;
 mod common;
 mod uper;
 
@@ -23,6 +24,7 @@ fn main() {
         "C06" => c06::run(ctx),
         "C08" => c08b::run(ctx),
         "C16" => uper::run_c16b(ctx),
+        "C17" => c17::run(ctx),
         other => {
             eprintln!("vrt does not serve {other}");
             2
